@@ -66,13 +66,23 @@ func (s *httpProxy) Handle(ctx context.Context, conn net.Conn) error {
 
 	defer conn2.Close()
 
+	// one buffered reader per direction for the whole connection: a reader per
+	// request drops whatever it had read ahead (pipelined requests, the start
+	// of the next reply)
+	reader := bufio.NewReader(conn)
+	reader2 := bufio.NewReader(conn2)
+
 	for {
-		reader := bufio.NewReader(conn)
 		req, err := http.ReadRequest(reader)
 		if err == io.EOF {
 			return nil
 		} else if err != nil {
 			return err
+		}
+
+		if _, ok := req.Header["User-Agent"]; !ok {
+			// relay the request as it came: do not let Request.Write add its default User-Agent
+			req.Header.Set("User-Agent", "")
 		}
 
 		reqBody := &bytes.Buffer{}
@@ -101,7 +111,6 @@ func (s *httpProxy) Handle(ctx context.Context, conn net.Conn) error {
 
 		var resp *http.Response
 
-		reader2 := bufio.NewReader(conn2)
 		resp, err = http.ReadResponse(reader2, req)
 		if err == io.EOF {
 			return nil
